@@ -10,8 +10,10 @@
   * `reject_codes`, `reject_closes`                                   — RFC 1928 error codes, closing
   * `after_request_relayed_once_in_order`, `relayed_only_after_request` — relay of the bytes after the request
   * `feed_nil_reachable`                                               — the empty-segment guard of the model is unobservable
+  * `constants_match_code`  — the literals of the model are the SOCKS5_* constants regenerated from modes.py (Gen/C21.lean)
 -/
 import MitmVerif.Lemmas.C21
+import MitmVerif.Gen.C21
 namespace MitmVerif.Props.C21
 open MitmVerif MitmVerif.C21
 
@@ -376,5 +378,28 @@ example : feed envA init [5,1,2, 1,1,0x61,1,0x62, 5,1,0,3,1,0x78,0,80] =
 example : actAll envT (.settled init) [.ev (.data [5,1,0,5,1,0,1,1,2,3,4,0,80]), .ev (.data [9]), .ev .close, .complete] =
     (.settled .relay, [.send [5,0], .setAddr 1 [1,2,3,4] 80, .openServer, .childStart, .send (reply 0),
                        .child 9, .childClose]) := by decide +kernel
+
+/-! ### (T) the model's literals are the constants of the code (Gen/C21.lean is regenerated on every run) -/
+
+open MitmVerif.Gen.C21 in
+/-- version, method numbers, address types and reply codes used by the model are modes.py's `SOCKS5_*` constants -/
+theorem constants_match_code :
+    needed envT = UInt8.ofNat SOCKS5_METHOD_NO_AUTHENTICATION_REQUIRED ∧
+    needed envA = UInt8.ofNat SOCKS5_METHOD_USER_PASSWORD_AUTHENTICATION ∧
+    syncGreet envT [UInt8.ofNat SOCKS5_VERSION, 0] =
+      (.done, [.send (reply (UInt8.ofNat SOCKS5_METHOD_NO_ACCEPTABLE_METHODS)), .close]) ∧
+    syncConnect envA [UInt8.ofNat SOCKS5_VERSION, 1, 0, UInt8.ofNat SOCKS5_ATYP_IPV4_ADDRESS, 1, 2, 3, 4, 0, 80] =
+      (.done, [.setAddr 1 [1, 2, 3, 4] 80, .openServer, .send (reply (UInt8.ofNat SOCKS5_REP_HOST_UNREACHABLE)), .close]) ∧
+    syncConnect envA [UInt8.ofNat SOCKS5_VERSION, 1, 0, UInt8.ofNat SOCKS5_ATYP_DOMAINNAME, 1, 0x78, 0, 80] =
+      (.done, [.setAddr 3 [0x78] 80, .openServer, .send (reply (UInt8.ofNat SOCKS5_REP_HOST_UNREACHABLE)), .close]) ∧
+    syncConnect envA [UInt8.ofNat SOCKS5_VERSION, 1, 0, UInt8.ofNat SOCKS5_ATYP_IPV6_ADDRESS,
+        0, 0, 0, 0, 0, 0, 0, 0, 0, 0, 0, 0, 0, 0, 0, 1, 0, 80] =
+      (.done, [.setAddr 4 [0, 0, 0, 0, 0, 0, 0, 0, 0, 0, 0, 0, 0, 0, 0, 1] 80, .openServer,
+               .send (reply (UInt8.ofNat SOCKS5_REP_HOST_UNREACHABLE)), .close]) ∧
+    syncConnect envT [UInt8.ofNat SOCKS5_VERSION, 2, 0, 1, 0] =
+      (.done, [.send (reply (UInt8.ofNat SOCKS5_REP_COMMAND_NOT_SUPPORTED)), .close]) ∧
+    syncConnect envT [UInt8.ofNat SOCKS5_VERSION, 1, 0, 9, 0] =
+      (.done, [.send (reply (UInt8.ofNat SOCKS5_REP_ADDRESS_TYPE_NOT_SUPPORTED)), .close]) := by
+  decide +kernel
 
 end MitmVerif.Props.C21
